@@ -51,6 +51,9 @@ def agree(spec):
     p = corpus.make_problem(spec)
     kw = dict(spec["kwargs"])
     mode = spec["jac"]
+    sfac = float(spec.get("scaler", 1.0))
+    if sfac != 1.0:     # both runs minimise the same scaled objective (a constant gradient scaler)
+        kw["gradient_scaler"] = (lambda x, g, lb, ub, v=sfac: v)
     rex = lbfgsb.minimize_lbfgsb(x0=p.x0, fun=p.fun, jac=p.grad, bounds=p.bounds, **kw)
     nact = int(np.sum((rex.x == p.lb) | (rex.x == p.ub)))
     try:
@@ -71,7 +74,7 @@ def agree(spec):
     elif mode in ("2-point", "3-point"):
         # the absolute steps SciPy derives from rel_step at this point (rel_step*|x| when given, with its own fallbacks)
         from scipy.optimize._numdiff import _compute_absolute_step
-        hv = np.abs(_compute_absolute_step(kw.get("finite_diff_rel_step"), xr, np.float64(rfd.fun), mode))
+        hv = np.abs(_compute_absolute_step(kw.get("finite_diff_rel_step"), xr, np.float64(rfd.fun / sfac), mode))
         hv = np.where(hv > 0, hv, epsm ** 0.5)
     else:
         hv = np.ones(xr.size)
@@ -84,7 +87,7 @@ def agree(spec):
         gp, gm = float(np.asarray(p.grad(xr + e), float)[i]), float(np.asarray(p.grad(xr - e), float)[i])
         d2[i] = abs(gp - gm) / (2 * dl)
         d3[i] = abs(gp - 2.0 * float(gex[i]) + gm) / (dl * dl)
-    noise = epsm * (1.0 + abs(float(rfd.fun))) / hv
+    noise = epsm * (1.0 + abs(float(rfd.fun) / sfac)) / hv
     if mode in ("none", "2-point"):
         allowed = 5.0 * 0.5 * hv * d2 + 50.0 * noise + 1e-9 * gscale
     elif mode == "3-point":
@@ -93,7 +96,7 @@ def agree(spec):
         allowed = np.full(xr.size, 1e-10 * gscale)
     # (along a variable with lb == ub nothing can be differenced and nothing is needed: not compared)
     mov = np.asarray(p.lb) < np.asarray(p.ub)
-    err = np.abs(np.asarray(rfd.jac, float) - gex)
+    err = np.abs(np.asarray(rfd.jac, float) / sfac - gex)
     gerr = float(np.max((err / allowed)[mov])) if mov.any() else 0.0
     gtol_fd = 1.0
     f = {"fun_matches_exact_gradient_solution": bool(abs(rfd.fun - rex.fun) <= TOL[mode] * scale),
@@ -117,6 +120,8 @@ def agree_specs(ctx):
             out[-1]["box_kinds"] = ["up", "up", "free"]
             if mode in ("2-point", "3-point"):
                 out[-1]["kwargs"]["finite_diff_rel_step"] = float(rng.choice([1e-5, 1e-6]))
+        if i % 6 == 5:
+            out[-1]["scaler"] = float(rng.choice([0.25, 8.0, 64.0]))
         if mode == "none" and i % 8 == 0:
             out[-1]["kwargs"]["eps"] = float(rng.choice([1e-6, 1e-7]))
         elif mode in ("2-point", "3-point") and i % 8 in (1, 2):
